@@ -62,6 +62,45 @@ func codecTokensOf(c *an.Ctx, pk *packages.Package, fd *ast.FuncDecl, depth int)
 			for _, a := range x.Args {
 				walk(a)
 			}
+			// a plain (package-level) function that is handed the stream: its tokens, inlined
+			var fnIdent *ast.Ident
+			switch f := x.Fun.(type) {
+			case *ast.Ident:
+				fnIdent = f
+			case *ast.SelectorExpr:
+				if id, isID := f.X.(*ast.Ident); isID {
+					if _, isPkg := info.Uses[id].(*types.PkgName); isPkg {
+						fnIdent = f.Sel
+					}
+				}
+			}
+			if fnIdent != nil {
+				fo, isF := info.Uses[fnIdent].(*types.Func)
+				if !isF || fo.Pkg() == nil {
+					return
+				}
+				takes := false
+				for _, a := range x.Args {
+					if t := info.TypeOf(a); t != nil && isCodecStream(t) != "" {
+						takes = true
+					}
+				}
+				if !takes {
+					return
+				}
+				if hpk := c.P.All[fo.Pkg().Path()]; hpk != nil && depth < 2 {
+					for _, f := range hpk.Syntax {
+						for _, d := range f.Decls {
+							if hd, isFD := d.(*ast.FuncDecl); isFD && hd.Recv == nil && hpk.TypesInfo.Defs[hd.Name] == fo {
+								out = append(out, codecTokensOf(c, hpk, hd, depth+1)...)
+								return
+							}
+						}
+					}
+				}
+				out = append(out, "?"+fo.Name())
+				return
+			}
 			sel, ok := x.Fun.(*ast.SelectorExpr)
 			if !ok {
 				return
